@@ -810,6 +810,7 @@ pub enum ReversedError {
 pub struct Step {
     iter: KIterator,
     step: u64,
+    started: bool,
 }
 
 impl Step {
@@ -818,7 +819,11 @@ impl Step {
         if step == 0 {
             Err(StepError::StepCantBeZero)
         } else {
-            Ok(Self { iter, step })
+            Ok(Self {
+                iter,
+                step,
+                started: false,
+            })
         }
     }
 }
@@ -828,6 +833,7 @@ impl KotoIterator for Step {
         let result = Self {
             iter: self.iter.make_copy()?,
             step: self.step,
+            started: self.started,
         };
         Ok(KIterator::new(result))
     }
@@ -837,11 +843,16 @@ impl Iterator for Step {
     type Item = Output;
 
     fn next(&mut self) -> Option<Self::Item> {
-        let result = self.iter.next();
-        for _ in 0..self.step - 1 {
-            self.iter.next();
+        // The values between steps are skipped when the next value is requested,
+        // so that nothing beyond the yielded value gets consumed from the input.
+        if self.started {
+            for _ in 0..self.step - 1 {
+                self.iter.next()?;
+            }
+        } else {
+            self.started = true;
         }
-        result
+        self.iter.next()
     }
 
     fn size_hint(&self) -> (usize, Option<usize>) {
